@@ -2051,7 +2051,7 @@ func emitWireFacts(w func(string, ...any), repo string, mintP, cashuP, cryptoP, 
 	emitFields("fields_CachedEndpoint", structFields(nut06P, "CachedEndpoint"))
 }
 
-// the body of RequestMeltQuote (which invoice may be settled internally, F16; what the quote is for)
+// the body of RequestMeltQuote (which invoice may be settled internally, F17; what the quote is for)
 func emitMeltQuoteFacts(w func(string, ...any), mintP *pkg) {
 	w("\n/-! ## Mint.RequestMeltQuote / settleQuotesInternally: bodies (go/printer, comments stripped) -/\n")
 	w("def src_RequestMeltQuote : List String := %s\n", leanStrList(bodyLines(findFunc(mintP, "Mint", "RequestMeltQuote"))))
